@@ -3,6 +3,10 @@ import Dashu.Props.GenInt
 import Dashu.Proofs.Int.Ops
 import Dashu.Proofs.Int.Mul
 import Dashu.Proofs.Int.Pow
+import Dashu.Proofs.Int.Memory
+import Dashu.Proofs.Int.MulCompose
+import Dashu.Proofs.Int.PowCompose
+import Dashu.Proofs.Int.PowBuf
 /-
   C01 — Integer ring arithmetic is exact for every operand size and sign.
 
@@ -584,6 +588,118 @@ theorem u_pow_checked_exact (W : Nat) (hW : 4 ≤ W) (a : TRepr) (exp : Nat) (ha
 
 /-- the panic class is not empty: `4.pow(2^63)` -/
 theorem pow_shift_overflow_witness : powShiftOverflows 4 (2 ^ 63) = true := powShiftOverflows_witness
+
+-- ====================================================================== scratch memory is always sufficient
+
+/-- **`mul_large` can never hit `expect("internal error: not enough memory allocated")`.**
+    `memMulLarge l r` replays, for operands of `l` and `r` words, every `Memory::allocate_slice_*` of
+    `mul::multiply` (chunk splitting, Karatsuba, Toom-3, recursively; sizes only, block-scoped re-use of the
+    chunk as in the source) against the `MemoryAllocation` that `mul_large` makes,
+    `mul::memory_requirement_exact(l + r, min(l, r))`; it returns `.ok ()` for all `l`, `r`. -/
+theorem mul_scratch_sufficient (l r : Nat) : memMulLarge l r = .ok () := memMulLarge_ok l r
+
+/-- **`square_large` likewise**, with `sqr::memory_requirement_exact(len)` -/
+theorem sqr_scratch_sufficient (len : Nat) : memSquareLarge len = .ok () := memSquareLarge_ok len
+
+/-- reusable shape (div / gcd callers pass sub-chunks): any chunk with at least
+    `mul::memory_requirement_up_to(_, min(a, b))` free words is enough for `mul::add_signed_mul` on operands of
+    `a` and `b` words, and any chunk with `memBound n ≤ mulMemReq n` words for the same-length kernel -/
+theorem add_signed_mul_scratch_sufficient (fuel a b avail : Nat) (h : mulMemReq (min a b) ≤ avail) :
+    memAddSignedMul fuel a b avail = .ok () := memAddSignedMul_ok fuel a b avail h
+
+theorem add_signed_mul_same_len_scratch_sufficient (fuel n avail : Nat) (h : mulMemReq n ≤ avail) :
+    memSameLen fuel n avail = .ok () :=
+  memSameLen_ok fuel n avail (Nat.le_trans (memBound_le_req n) h)
+
+/-- the potential behind the proof: what the recursion needs is at most `memBound n`, and `memBound n` is at
+    most the requirement.  For Toom-3 it is `4n + 20·(⌈log₃(2n−5)⌉ − 2)` (the requirement `4n + 13·ceil_log2 n`
+    does not satisfy its own recurrence level by level; `3^13 ≥ 2^20` closes the gap). -/
+theorem scratch_potential_le_requirement (n : Nat) : memBound n ≤ mulMemReq n := memBound_le_req n
+
+/-- the requirements are monotone in the operand length (needed because the remainder call of the chunk
+    splitting runs in the same chunk with a shorter operand) -/
+theorem mul_requirement_monotone {a b : Nat} (h : a ≤ b) : mulMemReq a ≤ mulMemReq b := mulMemReq_mono h
+
+/-- `math::ceil_log2` is the ceiling logarithm -/
+theorem ceil_log2_exact (n : Nat) : ceilLog2 n = Nat.clog 2 n := ceilLog2_eq_clog n
+
+/-- non-vacuity / tightness: with 35 words less than required a 49-word square does run out of memory -/
+theorem scratch_requirement_tight : memSameLen 49 49 (sqrMemReq 49 - 35) = .error memPanic :=
+  memSameLen_tight
+
+-- ====================================================================== composition with C02 / C09 kernels
+
+/-- `div::div_by_word_in_place(t, 6)` (C02's mirrored kernel) returns exactly what `toomScratch` writes for
+    `t1 /= 6`: the words of `val t / 6`, and the remainder `val t % 6` -/
+theorem toom3_div6_is_kernel (W : Nat) (hW : 3 ≤ W) (t : List Nat) (ht : IsWords W t) :
+    Div.divByWordInPlace W t 6 = .ok (wordsOfLen W t.length (val W t / 6), val W t % 6) :=
+  divByWord6_eq W hW t ht
+
+/-- `shift::shr_in_place(t, 1)` (mirrored in C02's model) likewise for `t2 /= 2` -/
+theorem toom3_shr1_is_kernel (W : Nat) (hW : 1 ≤ W) (t : List Nat) (ht : IsWords W t) :
+    Div.shrInPlace W t 1 = (wordsOfLen W t.length (val W t / 2), (val W t % 2) * 2 ^ (W - 1)) :=
+  shrInPlace1_eq W hW t ht
+
+/-- **Toom-3 has no step left at its specification**: on the interpolation buffers the two division kernels
+    return exactly the `t1`, `t2` used by the updates of `c`, with remainder zero
+    (`assert_eq!(t1_rem, 0)`, `assert_eq!(t2_rem, 0)`) -/
+theorem toom3_division_steps_exact (W : Nat) (hW : 4 ≤ W) (rec : MulKernel)
+    (hrec : SameLenContract W rec) (a b : List Nat) (hab : a.length = b.length) (hn : 16 ≤ a.length)
+    (ha : IsWords W a) (hb : IsWords W b) :
+    Div.divByWordInPlace W (toomScratchPre W rec a b).t1 6 = .ok ((toomScratch W rec a b).t1, 0) ∧
+    Div.shrInPlace W (toomScratchPre W rec a b).t2 1 = ((toomScratch W rec a b).t2, 0) :=
+  toom3_division_steps W hW rec hrec a b hab hn ha hb
+
+/-- **UBig::pow through the mirrored C09 kernels** (`trailing_zeros`, `TypedReprRef >> usize`,
+    `TypedRepr << usize`; this is what the driver runs): the exact power, canonical; the documented allocation
+    panic exactly when `exp * shift` does not fit `usize` -/
+theorem u_pow_kernels_exact (W : Nat) (hW : 4 ≤ W) (a : TRepr) (exp : Nat) (ha : a.Canon W) :
+    (powShiftOverflows (a.value W) exp = true → ubigPowKernels W a exp = .error .allocTooMuch) ∧
+    (powShiftOverflows (a.value W) exp = false →
+      ∃ r, ubigPowKernels W a exp = .ok r ∧ r.value W = a.value W ^ exp ∧ r.Canon W) :=
+  ubigPowKernels_spec W hW a exp ha
+
+/-- **IBig::pow through the mirrored kernels** -/
+theorem i_pow_kernels_exact (W : Nat) (hW : 4 ≤ W) (a : SRepr) (exp : Nat) (ha : a.WF W) :
+    (powShiftOverflows (a.mag.value W) exp = true → ibigPowKernels W a exp = .error .allocTooMuch) ∧
+    (powShiftOverflows (a.mag.value W) exp = false →
+      ∃ r, ibigPowKernels W a exp = .ok r ∧ r.value W = a.value W ^ exp ∧ r.WF W) :=
+  ibigPowKernels_spec W hW a exp ha
+
+-- ====================================================================== pow with real buffers
+
+/-- **`pow_word_base` with its buffers as word lists** (branch `exp ≥ 2·wexp`): `Buffer::allocate(e + 1)` with
+    `e = exp / wexp`, scratch `array_layout(e/2 + 1)` + `sqr::memory_requirement_exact(e/2 + 1)`; no `push` /
+    `push_zeros` capacity assertion fails, no scratch allocation fails (the copy of `res` before each squaring
+    fits because `res` has at most `e/2` words then), `push_resizing` never resizes (capacity unchanged), the
+    final buffer has at most `e + 1` words ("result is at most exp + 1 words") and holds `base ^ exp` -/
+theorem pow_word_base_buffer_exact (W : Nat) (hW : 4 ≤ W) (base exp : Nat) (hb : 2 < base)
+    (hlt : base < 2 ^ W) (hexp : 2 * (maxExpInWord W base).1 ≤ exp) :
+    ∃ b, powWordBaseBuf W base exp = .ok b ∧ val W b.ws = base ^ exp ∧ IsWords W b.ws ∧
+      b.ws.length ≤ exp / (maxExpInWord W base).1 + 1 ∧
+      b.cap = bufDefaultCapacity (exp / (maxExpInWord W base).1 + 1) :=
+  powWordBaseBuf_spec W hW base exp hb hlt hexp
+
+/-- **`pow_dword_base` likewise**: `Buffer::allocate(2·exp)`, scratch `array_layout(exp)` +
+    `sqr::memory_requirement_exact(exp)`; at most `2·exp` words ("result is at most 2 * exp words") -/
+theorem pow_dword_base_buffer_exact (W : Nat) (hW : 4 ≤ W) (base exp : Nat) (hlt : base < 2 ^ (2 * W))
+    (hexp : 2 ≤ exp) :
+    ∃ b, powDwordBaseBuf W base exp = .ok b ∧ val W b.ws = base ^ exp ∧ IsWords W b.ws ∧
+      b.ws.length ≤ 2 * exp ∧ b.cap = bufDefaultCapacity (2 * exp) :=
+  powDwordBaseBuf_spec W hW base exp hlt hexp
+
+/-- `Repr::from_buffer` of those buffers is the `Repr` that `TRepr.pow` (value-level loop) returns -/
+theorem pow_base_buffer_repr (W : Nat) (hW : 4 ≤ W) (base exp : Nat) :
+    (2 < base → base < 2 ^ W → 2 * (maxExpInWord W base).1 ≤ exp →
+      ∃ b, powWordBaseBuf W base exp = .ok b ∧ fromBuffer W b.ws = ofNat W (powWordBase W base exp)) ∧
+    (base < 2 ^ (2 * W) → 2 ≤ exp →
+      ∃ b, powDwordBaseBuf W base exp = .ok b ∧ fromBuffer W b.ws = ofNat W (powDwordBase base exp)) :=
+  ⟨fun h1 h2 h3 => powWordBaseBuf_repr W hW base exp h1 h2 h3,
+   fun h1 h2 => powDwordBaseBuf_repr W hW base exp h1 h2⟩
+
+/-- canonical representations are unique (same value ⇒ same `TRepr`) -/
+theorem canonical_unique (W : Nat) (x y : TRepr) (hx : x.Canon W) (hy : y.Canon W)
+    (h : x.value W = y.value W) : x = y := canon_unique W x y hx hy h
 
 -- ====================================================================== exactly what the driver evaluates
 
